@@ -406,6 +406,21 @@ func (u *Unit) loopCtx(st *State, h *ssa.BasicBlock, phis map[*ssa.Phi]Term) *Ev
 			}
 		}
 	}
+	// map iterators of the other (enclosing) loops: #seenK, #mapK and, once a key has been delivered, #keyK
+	for oh, ord := range u.headers {
+		if oh == h {
+			continue
+		}
+		if oli := u.loopInfo(oh); oli.next != nil {
+			if it, ok := st.iters[oli.next.Iter.(*ssa.Range)]; ok && it.kind == "map" {
+				ctx.vars[fmt.Sprintf("__h_seen%d", ord)] = it.seen
+				ctx.vars[fmt.Sprintf("__h_map%d", ord)] = mkT(it.mref.S, SInt, it.mT)
+				if it.cur.S != "" {
+					ctx.vars[fmt.Sprintf("__h_key%d", ord)] = it.cur
+				}
+			}
+		}
+	}
 	if snap, ok := st.loopSnap[u.headers[h]]; ok {
 		ctx.loopSnap = snap
 	}
@@ -660,6 +675,7 @@ func (u *Unit) loopEnter(st *State, from, h *ssa.BasicBlock) {
 			it.pos = u.fresh(st, "pos", SInt, nil)
 		} else {
 			it.seen = u.fresh(st, "seen", it.seen.Sort, nil)
+			it.cur = Term{}
 		}
 	}
 	u.execPhis(st, h, h, phis)
@@ -997,6 +1013,8 @@ func (u *Unit) execReturn(st *State, x *ssa.Return) {
 			continue
 		}
 		ctx := mkctx()
+		// (a hint may speak about locals; parameters and results keep their names)
+		u.bindLocals(ctx, st, x.Block())
 		g := ctx.eval(a.Clause.Expr)
 		for _, s := range ctx.side {
 			st.assume(s)
